@@ -305,6 +305,10 @@ class Sim(object):
         if self.in_sched:
             return
         me = self.current
+        if me is None:
+            # set-up code running before the first simulated thread (a
+            # Connection being built and configured): nothing to schedule
+            return
         self.steps += 1
         me.steps += 1
         # NB: line numbers are deliberately not folded into the digest: the
